@@ -135,6 +135,18 @@ func registerSym(e *Engine) {
 			fr.p.mapPerm = args[0].(bool)
 			return nil
 		})
+		e.reg(pre+"Setenv", func(fr *frame, args []value) value {
+			fr.p.hostState["env"] = "symbolic"
+			fr.p.hostState["env-explicit"] = true
+			fr.p.hostState["env:"+strArg(args[0])] = [2]value{args[1], true}
+			return nil
+		})
+		e.reg(pre+"Unsetenv", func(fr *frame, args []value) value {
+			fr.p.hostState["env"] = "symbolic"
+			fr.p.hostState["env-explicit"] = true
+			fr.p.hostState["env:"+strArg(args[0])] = [2]value{"", false}
+			return nil
+		})
 		e.reg(pre+"SetUnwind", func(fr *frame, args []value) value {
 			fr.p.unwindLimit = int(args[0].(int64))
 			return nil
